@@ -10,7 +10,7 @@
     consistent sync.Mutex / channels; the Go scheduler eventually runs an enabled
     goroutine (liveness is stated as "some step of the server is enabled"). *)
 From Coq Require Import NArith List Bool Arith Relations String.
-From P9V Require Import Loop.Model Loop.Proofs Loop.Multi Loop.Tie gen.LoopGen.
+From P9V Require Import Loop.Model Loop.Proofs Loop.Multi Loop.Tie Loop.FidMu Loop.Variants gen.LoopGen.
 Import ListNotations.
 Open Scope list_scope.
 
@@ -230,6 +230,53 @@ Theorem C06_tie_bodies :
   send_writes = ["v0.WriteTo(v1)"]%string /\
   handleRequest_calls = expected_calls.
 Proof. exact (conj tie_StartTag (conj tie_send_writes tie_calls)). Qed.
+
+(** The fid table's mutex (Loop/FidMu.v: a component model of its own, NOT composed with the request loop above; any number
+    of goroutines, any programs of table operations and backend calls, all interleavings).  Every fid-carrying request takes
+    fidMu, so "a request blocked inside the backend delays only requests that the File contract orders after it" needs that
+    no backend call runs under it.  With critical sections free of blocking operations (the generated obligation
+    C06_tie_short_sections below) a request that wants the table gets it, and finishes its table operation, by at most
+    three server steps - one of another goroutine - and NO backend return, however many calls are blocked ... *)
+Theorem C06_fidmu_mutex : forall p s t u, freachable p s -> in_cs (ph s t) = true -> in_cs (ph s u) = true -> t = u.
+Proof. exact fidmu_mutex. Qed.
+Theorem C06_fidmu_nonblocking : forall p s t r, (forall u, clean (p u) = true) -> freachable p s ->
+  ph s t = PReady -> prog s t = OCS :: r ->
+  exists ls s', forallb server_label ls = true /\ List.length ls <= 3 /\ frun ls s = Some s' /\
+                ph s' t = PReady /\ prog s' t = r /\ mu s' = None.
+Proof. exact fidmu_section_completes. Qed.
+Print Assumptions C06_fidmu_nonblocking.
+(** ... and the obligation is necessary: with the backend's Close inside DeleteFID's critical section (the code before
+    fix 9140d2e; seeded C06-m4, C06-revert-fidmu-across-close) a goroutine that only wants to look a fid up cannot move,
+    nor can any other, until the backend returns. *)
+Theorem C06_fidmu_blocked_if_backend_call_inside :
+  freachable bad_prog bad_state /\ ph bad_state 1 = PReady /\ prog bad_state 1 = [OCS] /\
+  (forall l, server_label l = true -> fexec l bad_state = None) /\
+  (forall ls s', forallb server_label ls = true -> frun ls bad_state = Some s' -> s' = bad_state).
+Proof. exact fidmu_blocked_if_backend_call_inside. Qed.
+Print Assumptions C06_fidmu_blocked_if_backend_call_inside.
+Theorem C06_tie_short_sections : short_sections_nonblocking = true /\ short_sections_present = true /\
+  body_fidRef_IncRef = ["atomic.AddInt64(&t.refs, 1)"]%string.
+Proof. exact (conj tie_short_sections_nonblocking (conj tie_short_sections_present tie_IncRef)). Qed.
+
+(** The own-tag guard of the capture (tie_capture_guarded) is needed for "a Tflush naming its own tag gets exactly one
+    reply": in the variant of the model whose capture is NOT guarded (Loop/Variants.v; seeded C06-m3,
+    C06-revert-flush-own-tag), for EVERY tag t the Tflush(tag t, oldtag t) is never answered in any continuation, and its
+    tag stays active for ever.  (In the model itself it is answered at once: C14_at_once_answered.) *)
+Theorem C06_capture_guard_needed : forall t, exists vs0,
+  vreachable v_unguarded (inp_own t) vs0 /\
+  forall vs, vsteps v_unguarded (inp_own t) vs0 vs ->
+    pc (base vs) 0 = RRun (Some 0) /\ final (pc (base vs) 0) = false /\
+    (forall r, ~ In (0, r) (replies (base vs))) /\
+    tags (base vs) t = Some 0 /\
+    (forall l vs', vexec v_unguarded (inp_own t) l vs = Some vs' -> pc (base vs') 0 = RRun (Some 0)).
+Proof. exact unguarded_own_flush_never_answered. Qed.
+Print Assumptions C06_capture_guard_needed.
+(** the widened model with all flags as in the code IS the model of this file *)
+Theorem C06_variant_faithful : forall inp,
+  (forall vs, vreachable faithful inp vs -> reachable inp (base vs) /\ det vs = [] /\ skipped vs = []) /\
+  (forall s, reachable inp s -> exists vs, vreachable faithful inp vs /\ base vs = s).
+Proof. exact faithful_is_model. Qed.
+Print Assumptions C06_variant_faithful.
 
 (** Non-vacuity: a run with an immediate tag re-use, a duplicate tag and a rejected frame. *)
 Definition ex_inp : list frame := [FReq 1 KOp; FReq 1 KOp; FReject 7; FConn].
